@@ -504,7 +504,14 @@ def check(ctx):
         pe, pd = flow.param_names(fe), flow.param_names(fd)
 
         def config(lb, ub, ext, parent=None):
-            _r, env = evalexpr.run_function(init, {flow.param_names(init)[1]: 'x', '__funcs__': bitmachine.module_funcs(init)}, skip_calls=True)
+            def run_cfg(fn_, env_):
+                # the statements of a constructor / setter that call a step of the object (set_constrained_size) are evaluated; only when that is beyond the
+                # evaluator are call statements skipped
+                try:
+                    return evalexpr.run_function(fn_, dict(env_), skip_super=True)
+                except evalexpr.Unsupported:
+                    return evalexpr.run_function(fn_, dict(env_), skip_calls=True)
+            _r, env = run_cfg(init, {flow.param_names(init)[1]: 'x', '__funcs__': bitmachine.module_funcs(init), '__cls__': icls})
             sp = flow.param_names(srr)[1:]
             # a subtype of an already constrained parent: the parent's range is applied first, then the subtype's on the same object (that is what the
             # compilers do with the copy of the referenced type)
@@ -512,8 +519,11 @@ def check(ctx):
                 env = {k: v_ for k, v_ in env.items() if k.startswith('self.')}
                 env.update(dict(zip(sp, (lb_, ub_, ext_))))
                 env['__funcs__'] = bitmachine.module_funcs(srr)
-                _r, env = evalexpr.run_function(srr, env, skip_calls=True)
-            return {k: v_ for k, v_ in env.items() if k.startswith('self.')}
+                env['__cls__'] = icls
+                _r, env = run_cfg(srr, env)
+            cfg_ = {k: v_ for k, v_ in env.items() if k.startswith('self.')}
+            cfg_['__cls__'] = icls
+            return cfg_
         n_ok = n_und = 0
         first_bad = und = None
         groups = {}
@@ -638,7 +648,19 @@ def check(ctx):
                  ('codes 0..299', list(range(300))), ('"A".."P"', list(range(65, 81)))]
     for rel, aligned in ((PER, True), (UPER, False)):
         kcls = model.mod(rel).classes.get('KnownMultiplierStringType')
-        kinit = kcls.find_method('__init__')[1] if kcls and kcls.find_method('__init__') else None
+        kinit = None
+        for k_ in (kcls.mro() if kcls else []):
+            ini_ = k_.methods.get('__init__')
+            if ini_ is None:
+                continue
+            body_ = [s_ for s_ in ini_.body if not (isinstance(s_, ast.Expr) and isinstance(s_.value, ast.Constant))]
+            only_super = len(body_) == 1 and isinstance(body_[0], ast.Expr) and isinstance(body_[0].value, ast.Call) and isinstance(body_[0].value.func, ast.Attribute) \
+                and isinstance(body_[0].value.func.value, ast.Call) and ast.unparse(body_[0].value.func.value.func) == 'super' and body_[0].value.func.attr == '__init__' \
+                and [ast.unparse(a_) for a_ in body_[0].value.args] == [p_ for p_ in flow.param_names(ini_) if p_ != 'self']
+            if only_super:
+                continue          # a constructor that only hands its arguments on: the base class's constructor does the work (with the steps this class overrides)
+            kinit = ini_
+            break
         if kinit is None:
             raise AnalysisError('%s: KnownMultiplierStringType.__init__ vanished' % rel)
         kp = [p_ for p_ in flow.param_names(kinit) if p_ != 'self']
@@ -661,7 +683,8 @@ def check(ctx):
                 bits = b_
             keep = max(codes) <= 2 ** bits - 1
             given = _ev.Obj(encode_map={c_: i_ for i_, c_ in enumerate(sorted(codes))}, decode_map={i_: c_ for i_, c_ in enumerate(sorted(codes))})
-            env0 = {kp[0]: 'a', kp[1]: 1, kp[2]: 5, kp[3]: False, kp[4]: given, 'len(%s)' % kp[4]: n_, 'self.PERMITTED_ALPHABET': CLASS, 'len(self.PERMITTED_ALPHABET)': 10 ** 9}
+            env0 = {kp[0]: 'a', kp[1]: 1, kp[2]: 5, kp[3]: False, kp[4]: given, 'len(%s)' % kp[4]: n_, 'self.PERMITTED_ALPHABET': CLASS, 'len(self.PERMITTED_ALPHABET)': 10 ** 9,
+                    '__cls__': kcls}
             try:
                 _r, env_ = _ev.run_function(kinit, env0, skip_super=True)
             except (_ev.Unsupported, _ev.Raised) as e_:
